@@ -142,3 +142,73 @@ pub fn record(args: &[String]) -> anyhow::Result<()> {
     println!("{}", json!({"summary": true, "traces": traces, "events": total, "out": out}));
     Ok(())
 }
+
+
+/// `c11-sessions`: histories of (server session, packet id) presentations exported from PacketSessions.tla, replayed on the
+/// REAL client datagram codec: the client sends one datagram (which fixes its session id), then every presentation is a
+/// reply made by the real server-side codec for that client session under the given server session and packet id.
+pub fn sessions(_args: &[String]) -> anyhow::Result<()> {
+    use bytes::BytesMut;
+    use octo_squirrel_client::client::verif as cv;
+    use tokio_util::codec::Decoder;
+    use tokio_util::codec::Encoder;
+
+    use crate::refcodec as rc;
+    use crate::refcodec::Cipher;
+    use crate::ssudp;
+    use crate::stream;
+    use crate::sut;
+    util::quiet_panics();
+    let mut n = 0u64;
+    let mut bad = 0u64;
+    let mut steps = 0u64;
+    let ciphers = [Cipher::Aes128Gcm2022, Cipher::ChaCha20Poly1305_2022, Cipher::Aes256Gcm2022, Cipher::ChaCha8Poly1305_2022];
+    for (k, sc) in util::stdin_json_lines().into_iter().enumerate() {
+        let Some(hist) = sc["hist"].as_array() else { continue };
+        let c = ciphers[k % ciphers.len()];
+        let addr = stream::test_addr(k % 3);
+        let (cp, sp, us) = sut::ss_passwords(c, 0);
+        let res = (|| -> Result<Vec<bool>, String> {
+            let mut client = cv::packet_codec(&sut::ss_client_cfg(c, 0), &addr.to_octo()).map_err(|e| e.to_string())?;
+            let mut w = BytesMut::new();
+            client.encode((BytesMut::from(&b"first"[..]), addr.to_octo()), &mut w).map_err(|e| e.to_string())?;
+            let key = rc::keys_2022(&cp).0;
+            let p = rc::open_udp2022(c, &key, &key, 0, false, &w).ok_or("reference opener cannot read the real client's datagram")?;
+            let csid = p.session_id;
+            let mut got = Vec::new();
+            for e in hist {
+                let s = e["s"].as_u64().unwrap_or(0);
+                let id = e["id"].as_u64().unwrap_or(0);
+                let ssid = 0x5e55_0000_0000_0000u64 + s * 0x1_0001;
+                let reply = ssudp::server_encode(c, &sp, &us, None, (csid, ssid, id), &addr.to_octo(), format!("reply {s}/{id}").as_bytes())?;
+                let r = util::catch(|| client.decode(&mut BytesMut::from(&reply[..])));
+                got.push(match r {
+                    Ok(Ok(Some(_))) => true,
+                    Ok(Ok(None)) | Ok(Err(_)) => false,
+                    Err(p) => return Err(format!("panic: {p}")),
+                });
+            }
+            Ok(got)
+        })();
+        n += 1;
+        steps += hist.len() as u64;
+        let expect: Vec<bool> = hist.iter().map(|e| e["ok"].as_bool().unwrap_or(false)).collect();
+        match res {
+            Ok(got) if got == expect => {}
+            Ok(got) => {
+                bad += 1;
+                if bad <= 20 {
+                    println!("{}", json!({"mismatch": true, "cipher": c.name(), "hist": hist, "got": got}));
+                }
+            }
+            Err(e) => {
+                bad += 1;
+                if bad <= 20 {
+                    println!("{}", json!({"mismatch": true, "cipher": c.name(), "hist": hist, "error": e}));
+                }
+            }
+        }
+    }
+    println!("{}", json!({"summary": true, "histories": n, "steps": steps, "mismatches": bad}));
+    Ok(())
+}
